@@ -36,6 +36,8 @@ impl std::error::Error for TErr {}
 #[derive(Default)]
 pub struct Faults {
 	pub send_err: AtomicBool,
+	/// the transport accepts no more bytes for now (back-pressure): a `send().await` in progress does not return until released
+	pub hold: AtomicBool,
 }
 
 /// what the client handed to the transport, classified by the harness' own parse
@@ -99,9 +101,13 @@ impl TransportSenderT for MemSender {
 			let n = self.turns.fetch_add(1, Ordering::Relaxed);
 			(n.wrapping_mul(2654435761) >> 7) % 4
 		};
+		let faults = self.faults.clone();
 		async move {
 			if r.is_ok() {
 				for _ in 0..turns {
+					tokio::task::yield_now().await;
+				}
+				while faults.hold.load(Ordering::SeqCst) {
 					tokio::task::yield_now().await;
 				}
 			}
